@@ -10,6 +10,7 @@ let obs fmt = Printf.printf ("< " ^^ fmt ^^ "\n")
 (* per-case state *)
 let files : (string, handle option) Hashtbl.t = Hashtbl.create 8
 let snaps : (string, (arc list * bool) option) Hashtbl.t = Hashtbl.create 8
+let proc_mode = ref false        (* the current operation carries proc=1: the command ran as a process *)
 let clock : z ref = ref Z0        (* whispertool.Now as replaced by setclock *)
 let clock_step : z ref = ref Z0   (* each call that reads the clock reads it once; the next call sees clock + step *)
 let tick () = clock := Z.add !clock !clock_step
@@ -173,6 +174,7 @@ let main () =
     while true do
       let line = input_line ic in
       let toks = List.filter (fun s -> s <> "") (String.split_on_char ' ' (String.trim line)) in
+      proc_mode := List.mem "proc=1" toks;
       match toks with
       | [] -> ()
       | "case" :: _ -> reset_case (); List.iter (fun f -> f ()) !case_hooks; print_endline ("> " ^ String.trim line)
